@@ -3,9 +3,12 @@ C12 — caller data and package defaults are never modified  (PARTIAL: see DESIG
 (a) memory-level model of the OCRA message assembly (`padBytes`, the appends into the pooled buffer): every
     write lands in the pooled buffer or in fresh memory; all caller memory – including the spare capacity
     behind every argument slice – is unchanged, for every heap, every slice geometry and every suite;
-(b) regenerated store roots: every write through a pointer / slice, every returned slice / pointer / map and
-    every unsafe string view whose root is a parameter, a global or pooled memory is one of the reviewed
-    sites of `Model/Justified.lean` (none of which touches an exported function's argument);
+(b) regenerated store roots: the root of every write through a pointer / slice is followed through internal helpers
+    (a helper's parameter is resolved at all of its call sites; a helper returning a view of its argument is
+    followed into that argument; a reference loaded from a by-value struct parameter still counts as the caller's);
+    every write, returned reference or unsafe string view whose ultimate root is an exported function's argument,
+    a global or pooled memory is one of the reviewed sites of `Model/Justified.lean` (none touches a library
+    argument);
 (c) defaults: the nil-parameter paths work on a by-value copy.
 -/
 import OtpVerif.Gen.Sites
